@@ -142,41 +142,54 @@ def check_instant(t, kind, counters, classes):
     def report(cls, what, got):
         vio.append({'key': '%s:instant:%s' % (cls, oc), 'detail': 'TZ=%s t=%d (%s): %s decodes to %r (diff %s s)' % (os.environ.get('TZ'), t, time.strftime('%Y-%m-%d %H:%M:%S', time.gmtime(t)), what, got, (got - t) if got is not None else None),
                     'replay': {'tz': os.environ.get('TZ'), 't': t}})
-    d = dates.DirectoryRecordDate(); d.new(float(t)); b = d.record()
-    got = decode7(b); counters['timestamps_decoded'] = counters.get('timestamps_decoded', 0) + 1
-    if got != t:
-        report('dr-date', b.hex(), got)
-    d2 = dates.DirectoryRecordDate(); d2.parse(b)
-    if d2.record() != b:
-        vio.append({'key': 'dr-date:roundtrip', 'detail': b.hex(), 'replay': {'tz': os.environ.get('TZ'), 't': t}})
-    v = dates.VolumeDescriptorDate(); v.new(float(t)); b = v.record()
-    got = decode17(b); counters['timestamps_decoded'] += 1
-    if got != t:
-        report('vd-date', repr(b), got)
-    v2 = dates.VolumeDescriptorDate(); v2.parse(b)
-    if v2.record() != b:
-        vio.append({'key': 'vd-date:roundtrip', 'detail': repr(b), 'replay': {'tz': os.environ.get('TZ'), 't': t}})
-    for flags in (0x0e, 0x8e, 0x7f, 0xff):
-        tf = rockridge.RRTFRecord(); tf.new(flags, float(t)); b = tf.record()
-        n = 17 if flags & 0x80 else 7
-        body = b[5:]
-        for k in range(len(body) // n):
-            stamp = body[k * n:(k + 1) * n]
-            got = decode17(stamp) if n == 17 else decode7(stamp)
-            counters['timestamps_decoded'] += 1
-            if got != t:
-                report('tf-%d' % n, stamp.hex(), got)
-                break
-        tf2 = rockridge.RRTFRecord(); tf2.parse(b)
-        if tf2.record() != b:
-            vio.append({'key': 'tf:roundtrip', 'detail': b.hex(), 'replay': {'tz': os.environ.get('TZ'), 't': t}})
-    u = udf.UDFTimestamp(); u.new(float(t)); b = u.record()
-    got, typ = decode_udf(b); counters['timestamps_decoded'] += 1
-    if got != t:
-        report('udf-ts', b.hex(), got)
-    u2 = udf.UDFTimestamp(); u2.parse(b)
-    if u2.record() != b:
-        vio.append({'key': 'udf-ts:roundtrip', 'detail': b.hex(), 'replay': {'tz': os.environ.get('TZ'), 't': t}})
+    counters.setdefault('timestamps_decoded', 0)
+    try:
+        d = dates.DirectoryRecordDate(); d.new(float(t)); b = d.record()
+        got = decode7(b); counters['timestamps_decoded'] += 1
+        if got != t:
+            report('dr-date', b.hex(), got)
+        d2 = dates.DirectoryRecordDate(); d2.parse(b)
+        if d2.record() != b:
+            vio.append({'key': 'dr-date:roundtrip', 'detail': b.hex(), 'replay': {'tz': os.environ.get('TZ'), 't': t}})
+    except Exception as e:  # recording a valid instant must not fail
+        vio.append({'key': 'dr-date:raises:%s:instant:%s' % (type(e).__name__, oc), 'detail': 'TZ=%s t=%d (%s): %s' % (os.environ.get('TZ'), t, time.strftime('%Y-%m-%d %H:%M:%S', time.gmtime(t)), e), 'replay': {'tz': os.environ.get('TZ'), 't': t}})
+    try:
+        v = dates.VolumeDescriptorDate(); v.new(float(t)); b = v.record()
+        got = decode17(b); counters['timestamps_decoded'] += 1
+        if got != t:
+            report('vd-date', repr(b), got)
+        v2 = dates.VolumeDescriptorDate(); v2.parse(b)
+        if v2.record() != b:
+            vio.append({'key': 'vd-date:roundtrip', 'detail': repr(b), 'replay': {'tz': os.environ.get('TZ'), 't': t}})
+    except Exception as e:  # recording a valid instant must not fail
+        vio.append({'key': 'vd-date:raises:%s:instant:%s' % (type(e).__name__, oc), 'detail': 'TZ=%s t=%d (%s): %s' % (os.environ.get('TZ'), t, time.strftime('%Y-%m-%d %H:%M:%S', time.gmtime(t)), e), 'replay': {'tz': os.environ.get('TZ'), 't': t}})
+    try:
+        for flags in (0x0e, 0x8e, 0x7f, 0xff):
+            tf = rockridge.RRTFRecord(); tf.new(flags, float(t)); b = tf.record()
+            n = 17 if flags & 0x80 else 7
+            body = b[5:]
+            for k in range(len(body) // n):
+                stamp = body[k * n:(k + 1) * n]
+                got = decode17(stamp) if n == 17 else decode7(stamp)
+                counters['timestamps_decoded'] += 1
+                if got != t:
+                    report('tf-%d' % n, stamp.hex(), got)
+                    break
+            tf2 = rockridge.RRTFRecord(); tf2.parse(b)
+            if tf2.record() != b:
+                vio.append({'key': 'tf:roundtrip', 'detail': b.hex(), 'replay': {'tz': os.environ.get('TZ'), 't': t}})
+    except Exception as e:  # recording a valid instant must not fail
+        vio.append({'key': 'tf:raises:%s:instant:%s' % (type(e).__name__, oc), 'detail': 'TZ=%s t=%d (%s): %s' % (os.environ.get('TZ'), t, time.strftime('%Y-%m-%d %H:%M:%S', time.gmtime(t)), e), 'replay': {'tz': os.environ.get('TZ'), 't': t}})
+    try:
+        u = udf.UDFTimestamp(); u.new(float(t)); b = u.record()
+        got, typ = decode_udf(b); counters['timestamps_decoded'] += 1
+        if got != t:
+            report('udf-ts', b.hex(), got)
+        u2 = udf.UDFTimestamp(); u2.parse(b)
+        if u2.record() != b:
+            vio.append({'key': 'udf-ts:roundtrip', 'detail': b.hex(), 'replay': {'tz': os.environ.get('TZ'), 't': t}})
+    except Exception as e:  # recording a valid instant must not fail
+        vio.append({'key': 'udf-ts:raises:%s:instant:%s' % (type(e).__name__, oc), 'detail': 'TZ=%s t=%d (%s): %s' % (os.environ.get('TZ'), t, time.strftime('%Y-%m-%d %H:%M:%S', time.gmtime(t)), e), 'replay': {'tz': os.environ.get('TZ'), 't': t}})
     return vio
 
 
@@ -284,7 +297,14 @@ def run_zone(zone, seed, counters, classes, n_instants):
             vio += check_instant(t, kind, counters, classes)
         vio += check_random_roundtrips(rng, counters)
         for kind, t in rng.sample(ins, 3):
-            vio += check_image(t, counters)
+            try:
+                vio += check_image(t, counters)
+            except Exception as e:
+                where = driver.innermost_pycdlib_frame(e)
+                if where == '?':
+                    raise   # not raised inside the library: a harness error, reported as inconclusive
+                vio.append({'key': 'image:raises:%s@%s' % (type(e).__name__, where), 'detail': 'TZ=%s t=%d: mastering an image at this instant: %s' % (os.environ.get('TZ'), t, e),
+                            'replay': {'tz': os.environ.get('TZ'), 't': t}})
     finally:
         set_tz('UTC')
     return c01.dedup(vio)
